@@ -182,9 +182,91 @@ def _mention_set(expr):
     return s
 
 
+_UNK = object()
+
+
+def _tv(expr, consts):
+    """Three-valued evaluation of a test under names bound to constants on this path: True / False / _UNK."""
+    if isinstance(expr, ast.Constant):
+        return expr.value
+    if isinstance(expr, ast.Name):
+        return consts.get(expr.id, _UNK)
+    if isinstance(expr, ast.UnaryOp) and isinstance(expr.op, ast.Not):
+        v = _tv(expr.operand, consts)
+        return _UNK if v is _UNK else (not v)
+    if isinstance(expr, ast.UnaryOp) and isinstance(expr.op, ast.USub):
+        v = _tv(expr.operand, consts)
+        return _UNK if v is _UNK or not isinstance(v, (int, float)) else -v
+    if isinstance(expr, ast.BoolOp):
+        vals = [_tv(v, consts) for v in expr.values]
+        if isinstance(expr.op, ast.And):
+            if any(v is not _UNK and not v for v in vals):
+                return False
+            return _UNK if any(v is _UNK for v in vals) else True
+        if any(v is not _UNK and v for v in vals):
+            return True
+        return _UNK if any(v is _UNK for v in vals) else False
+    if isinstance(expr, ast.Compare) and len(expr.ops) == 1:
+        l, r = _tv(expr.left, consts), _tv(expr.comparators[0], consts)
+        if l is _UNK or r is _UNK:
+            return _UNK
+        op = expr.ops[0]
+        try:
+            if isinstance(op, ast.Eq):
+                return l == r
+            if isinstance(op, ast.NotEq):
+                return l != r
+            if isinstance(op, ast.Is):
+                return l is r or (l == r and (l is None or isinstance(l, bool)))
+            if isinstance(op, ast.IsNot):
+                return not (l is r or (l == r and (l is None or isinstance(l, bool))))
+            if isinstance(op, ast.Lt):
+                return l < r
+            if isinstance(op, ast.LtE):
+                return l <= r
+            if isinstance(op, ast.Gt):
+                return l > r
+            if isinstance(op, ast.GtE):
+                return l >= r
+        except TypeError:
+            return _UNK
+    return _UNK
+
+
+def _const_of(node):
+    if isinstance(node, ast.Constant) and (node.value is None or isinstance(node.value, (bool, int, str))):
+        return node.value
+    if isinstance(node, ast.UnaryOp) and isinstance(node.op, ast.USub) and isinstance(node.operand, ast.Constant) and isinstance(node.operand.value, int):
+        return -node.operand.value
+    return _UNK
+
+
 def feasible(events):
     known = {}  # text -> (pol, mention-set)
+    consts = {}  # local name -> constant value bound on this path
     for e in events:
+        if e.kind == "test":
+            v = _tv(e.node, consts)
+            if v is not _UNK and bool(v) != bool(e.pol):
+                return False
+        if e.kind in ("stmt", "iter", "with", "loop", "exc"):
+            node = e.node
+            if e.kind == "stmt" and isinstance(node, ast.Assign) and len(node.targets) == 1 and isinstance(node.targets[0], ast.Name):
+                c = _const_of(node.value)
+                if c is _UNK:
+                    consts.pop(node.targets[0].id, None)
+                else:
+                    consts[node.targets[0].id] = c
+            else:
+                if e.kind == "loop":
+                    roots = set()
+                    for st in ast.walk(node):
+                        if isinstance(st, (ast.stmt, ast.comprehension, ast.withitem)):
+                            roots |= written_roots(st)
+                else:
+                    roots = written_roots(node)
+                for r in roots:
+                    consts.pop(r, None)
         if e.kind == "test":
             if not is_pure(e.node):
                 continue
